@@ -95,6 +95,27 @@ def install_quiet_stubs(E):
     for n in ('_Z14btc_logf_dummyPKcz', '_Z15btc_logf_stderrPKcz', 'printf', 'fprintf', 'puts', 'putchar', 'fputc', 'fwrite', 'fputs', 'fflush', 'putc'):
         S[n] = lambda E, st, fr, I, A: 0
 
+def install_library_exceptions(E):
+    """exception objects constructed by libstdc++ itself (std::ios_base::failure thrown by the serialisation code): the constructor is external, so the
+    object gets a model vtable (destructors, what()) - a handler that calls ex.what() through the vptr then works; the message text is not modelled"""
+    base = max(E.addrf) + 16 if E.addrf else 0x1000
+    names = ['@__verif_exc_dtor', '@__verif_exc_dtor_del', '@__verif_exc_what']
+    for k, n in enumerate(names): E.faddr[n] = base + 16 * k; E.addrf[base + 16 * k] = n
+    E.stubs['__verif_exc_dtor'] = lambda E, st, fr, I, A: None
+    E.stubs['__verif_exc_dtor_del'] = lambda E, st, fr, I, A: None
+    E.stubs['__verif_exc_what'] = lambda E, st, fr, I, A: E.cstring(st, b'exception')
+    a = (E.gbrk + 15) // 16 * 16; E.gbrk = a + 64
+    E.gallocs[a] = (48, 'global'); E.gbases.append(a); E.gbases.sort()
+    for k in range(3):
+        for i in range(8): E.gmem[a + 8 * k + i] = ((base + 16 * k) >> (8 * i)) & 0xff
+    def ctor(E, st, fr, I, A): E.store(st, A[0], 8, a); return None
+    for n in ('_ZNSt8ios_base7failureB5cxx11C1EPKcRKSt10error_code', '_ZNSt8ios_base7failureB5cxx11C1ERKNSt7__cxx1112basic_stringIcSt11char_traitsIcESaIcEEERKSt10error_code',
+              '_ZNSt8ios_base7failureB5cxx11C1EPKc', '_ZNSt8ios_base7failureB5cxx11C1ERKNSt7__cxx1112basic_stringIcSt11char_traitsIcESaIcEEE',
+              '_ZNSt8ios_base7failureB5cxx11C2EPKcRKSt10error_code', '_ZNSt8ios_base7failureB5cxx11C2ERKNSt7__cxx1112basic_stringIcSt11char_traitsIcESaIcEEERKSt10error_code'):
+        E.stubs[n] = ctor
+    for n in ('_ZNSt8ios_base7failureB5cxx11D1Ev', '_ZNSt8ios_base7failureB5cxx11D2Ev'): E.stubs[n] = lambda E, st, fr, I, A: None
+    E.stubs['_ZSt17iostream_categoryv'] = lambda E, st, fr, I, A: 0
+
 def install_all(E, quiet=True, hashes=True, secp=True):
     import irsym
     irsym.install_std_stubs(E)
@@ -103,6 +124,7 @@ def install_all(E, quiet=True, hashes=True, secp=True):
     E.stubs['_ZNKSt13runtime_error4whatEv'] = lambda E, st, fr, I, A: E.cstring(st, b'exception')
     E.stubs['_ZNKSt9exception4whatEv'] = lambda E, st, fr, I, A: E.cstring(st, b'exception')
     E.stubs['_ZNKSt11logic_error4whatEv'] = lambda E, st, fr, I, A: E.cstring(st, b'exception')
+    install_library_exceptions(E)
     if quiet: install_quiet_stubs(E)
     if hashes: install_hash_stubs(E)
     if secp: install_secp_stubs(E)
